@@ -572,6 +572,8 @@ class World:
         rec["recipe"] = inst.recipe
         rec["iid"] = inst.iid
         rec["mod_dtype"] = DTNAME.get(catalog.module_dtype(inst.mod))
+        if self.profile == "C16":
+            rec["state"] = {k: v.detach().clone() for k, v in inst.mod.state_dict().items()}
         if inst.inflight > 0:
             self.stats["calls_on_shared_instance"] += 1
         mod = inst.mod
@@ -619,6 +621,8 @@ class World:
         rec["recipe"] = inst.recipe
         rec["iid"] = inst.iid
         rec["mod_dtype"] = DTNAME.get(catalog.module_dtype(inst.mod))
+        if self.profile == "C16":
+            rec["state"] = {k: v.detach().clone() for k, v in inst.mod.state_dict().items()}
         tens = [t for t in [low] + list(highs) if isinstance(t, torch.Tensor)]
         before = [(t, raw_bytes(t)) for t in tens]
         ident = (highs, len(highs), [id(e) for e in highs], list(highs))
@@ -863,7 +867,7 @@ def freeze_pyramid(low, highs):
         if t is None:
             return None
         return (t.detach().clone(), bool(t.requires_grad))
-    return (fz(low), [fz(h) for h in highs])
+    return (fz(low), [fz(h) for h in highs], isinstance(highs, tuple), not low.is_contiguous())
 
 
 def thaw_pyramid(fr):
@@ -876,7 +880,11 @@ def thaw_pyramid(fr):
         return t
     low = th(fr[0])
     highs = [th(f) for f in fr[1]]
-    leaves = [t for t in [low] + highs if t is not None and t.requires_grad]
+    if len(fr) > 3 and fr[3] and low.dim() >= 2 and not low.requires_grad:
+        low = low.transpose(-1, -2).contiguous().transpose(-1, -2)
+    if len(fr) > 2 and fr[2]:
+        highs = tuple(highs)
+    leaves = [t for t in [low] + list(highs) if t is not None and t.requires_grad]
     return low, highs, leaves
 
 
@@ -920,7 +928,12 @@ def build_pyramid(torch, fwd_family, outputs, op):
             highs.append(low.new_zeros([]))
         else:
             highs.append(cl(h, op.get("rg_high", False)))
-    leaves = [t for t in [low] + highs if t is not None and t.requires_grad]
+    if op.get("low_view") and low.dim() >= 2 and not low.requires_grad:
+        # same values, non-contiguous memory
+        low = low.transpose(-1, -2).contiguous().transpose(-1, -2)
+    if op.get("as_tuple"):
+        highs = tuple(highs)
+    leaves = [t for t in [low] + list(highs) if t is not None and t.requires_grad]
     return low, highs, leaves
 
 
